@@ -96,69 +96,30 @@ Lemma model_mb_tail_is_model pic running r :
    end).
 Proof. reflexivity. Qed.
 
-(* the part after CBPY, for a luma pattern already formed *)
-Lemma bridge_mb_after_cbpy pic running t cb cr has_cbpb has_mvdb luma r :
-  p_decode_macroblock_k30 running has_cbpb t pic cb cr has_mvdb luma r =
-  (let* r := (if has_cbpb then let* (_, r) := decode_cbpb r in Ok r else Ok r) in
-   if has running MODIFIED_QUANTIZATION then Err EUnimplemented else
-   let* (dq, r) := (if mb_has_quantizer t then let* (d, r) := decode_dquant r in Ok (Some d, r) else Ok (None, r)) in
-   let* (mvd, r) := (if mb_is_inter t || is_any_pbframe (picture_type pic)
-                      then let* (m, r) := decode_motion_vector pic running r in Ok (Some m, r) else Ok (None, r)) in
-   let* (addl, r) := (if mb_has_fourvec t then
-                         let* (m2, r) := decode_motion_vector pic running r in
-                         let* (m3, r) := decode_motion_vector pic running r in
-                         let* (m4, r) := decode_motion_vector pic running r in
-                         Ok (Some (m2, m3, m4), r)
-                       else Ok (None, r)) in
-   let* r := (if has_mvdb then
-                let* (_, r) := decode_motion_vector pic running r in
-                let* (_, r) := decode_motion_vector pic running r in
-                let* (_, r) := decode_motion_vector pic running r in
-                let* (_, r) := decode_motion_vector pic running r in
-                Ok r
-              else Ok r) in
-   Ok (MbCoded t (mkCbp luma cb cr) dq mvd addl, r)).
-Proof.
-  unfold p_decode_macroblock_k30, p_decode_macroblock_k55. cbv zeta.
-  eapply (bind_rel (fun x x' => snd x = x')).
-  { destruct has_cbpb; [|reflexivity]. rewrite <- bridge_p_decode_cbpb. destruct (p_decode_cbpb r) as [[a b]| | |]; reflexivity. }
-  intros [cbpb r1] r1' Hr. cbn [snd] in Hr. subst r1'. cbv beta iota.
-  destruct (has running MODIFIED_QUANTIZATION); [reflexivity|].
-  apply bind_eq. { rewrite bridge_p_decode_dquant. reflexivity. } intros [dq r2]. cbv beta iota.
-  apply bind_eq; [reflexivity|]. intros [mvd r3]. cbv beta iota.
-  apply bind_eq; [reflexivity|]. intros [addl r4]. cbv beta iota.
-  eapply (bind_rel (fun x x' => snd x = x')).
-  { destruct has_mvdb; [|reflexivity]. change (p_decode_motion_vector pic running) with (decode_motion_vector pic running).
-    repeat (match goal with |- context [decode_motion_vector pic running ?rr] =>
-              destruct (decode_motion_vector pic running rr) as [[? ?]| | |]; cbn [bind res_rel]; try reflexivity end). }
-  intros [mvb r5] r5' Hr. cbn [snd] in Hr. subst r5'. reflexivity.
-Qed.
-
-Lemma bridge_mb_tail pic running t cb cr r :
-  p_decode_macroblock_k18 pic r running (t, cb, cr) = model_mb_tail pic running t cb cr r.
-Proof.
-  unfold p_decode_macroblock_k18, model_mb_tail. cbv beta iota.
-  apply bind_eq.
-  { destruct (picture_type pic); try reflexivity. apply bind_eta. }
-  intros [[has_cbpb has_mvdb] r1]. cbv beta iota.
-  destruct (mb_is_intra t) eqn:Ei.
-  - apply bind_eq; [reflexivity|]. intros [[v|] r2]; [|reflexivity]. cbv beta iota zeta.
-    unfold p_decode_macroblock_k35. apply bridge_mb_after_cbpy.
-  - destruct (read_vlc cbpy_table_intra r1) as [[[v|] r2]| | |] eqn:Ev; cbn [bind]; try reflexivity.
-    destruct (cbpy_leaf_shape r1 v r2 Ev) as (a & b & c & d & ->). cbv zeta. cbn [map].
-    unfold p_decode_macroblock_k41. apply bridge_mb_after_cbpy.
-Qed.
+(* decode_macroblock: both sides are executed in lockstep - the same read is destructed on both sides at once, every condition
+   and every matched value is split - without naming the join points of the generated term, which change with every
+   restructuring of the source (tried: the CBPY read hoisted out of the intra / inter branches) *)
+Ltac lockstep :=
+  repeat (cbn [bind fst snd negb map]; cbv zeta; first
+   [ reflexivity
+   | rewrite !bind_assoc
+   | rewrite bridge_p_decode_dquant
+   | match goal with E : read_vlc cbpy_table_intra _ = Ok (Some ?v, _) |- _ =>
+       is_var v; destruct (cbpy_leaf_shape _ _ _ E) as (?&?&?&?&->) end
+   | match goal with |- context [p_decode_cbpb ?r] =>
+       rewrite <- (bridge_p_decode_cbpb r); destruct (p_decode_cbpb r) as [[? ?]| | |] end
+   | match goal with |- bind ?m _ = bind ?m _ => let E := fresh "Er" in destruct m as [[? ?]| | |] eqn:E end
+   | match goal with |- bind (if ?c then _ else _) _ = _ => destruct c eqn:? end
+   | match goal with |- (if ?c then _ else _) = _ => destruct c eqn:? end
+   | match goal with |- _ = (if ?c then _ else _) => destruct c eqn:? end
+   | match goal with |- bind (match ?x with _ => _ end) _ = _ => first [ is_var x; destruct x | destruct x eqn:? ] end
+   | match goal with |- match ?x with _ => _ end = _ => first [ is_var x; destruct x | destruct x eqn:? ] end ]).
 
 Lemma bridge_p_decode_macroblock pic running r : p_decode_macroblock pic running r = decode_macroblock pic running r.
 Proof.
-  rewrite model_mb_tail_is_model. unfold p_decode_macroblock.
-  apply bind_eq.
-  { unfold is_iframe. destruct (picture_type pic); try reflexivity; apply bind_eta. }
-  intros [cod r1]. cbv beta iota.
-  destruct (cod =? 0); cbn [negb]; [|reflexivity].
-  destruct (picture_type pic) eqn:Ept; try reflexivity;
-    (apply bind_eq; [reflexivity|]; intros [mc r2]; unfold p_decode_macroblock_k7; cbv zeta;
-     destruct mc as [| |t cb cr]; try reflexivity; apply bridge_mb_tail).
+  unfold p_decode_macroblock, decode_macroblock, is_iframe. autounfold with pgenmb.
+  change (p_decode_motion_vector pic running) with (decode_motion_vector pic running).
+  lockstep.
 Qed.
 
 (* decode_gob (parser/gob.rs): the start-code probe used for resynchronisation; the model returns no reader because the
